@@ -71,6 +71,7 @@ func (m *Machine) Case(stratum string) {
 	m.byTok = map[string]any{}
 	m.live = nil
 	m.nextID = 0
+	m.w.Flush() // what was recorded so far survives a crash of the process inside the library (a panic in a goroutine, a stack overflow)
 	m.emit(fmt.Sprintf("case\t%d\t%s", m.caseID, stratum))
 	m.stats.Case(stratum)
 }
@@ -1142,6 +1143,7 @@ func codeOf(v any) int {
 // ---------------------------------------------------------------- async variants (sequential view)
 
 func (m *Machine) ForEachAsync(r string) string {
+	m.w.Flush() // the library starts goroutines: a panic inside one ends the process
 	return m.Op("foreachasync", r, "", func() string {
 		var mu sync.Mutex
 		type call struct {
@@ -1163,6 +1165,7 @@ func (m *Machine) ForEachAsync(r string) string {
 	})
 }
 func (m *Machine) MapAsync(r string, fn *Fn) string {
+	m.w.Flush() // the library starts goroutines: a panic inside one ends the process
 	var tok string
 	m.Op("mapasync", r, fn.Token(), func() string {
 		tok = m.reg(m.L(r).MapAsync(func(i int, v any) any { return fn.Apply(i, v) }))
@@ -1171,6 +1174,7 @@ func (m *Machine) MapAsync(r string, fn *Fn) string {
 	return tok
 }
 func (m *Machine) OForEachAsync(r string) string {
+	m.w.Flush() // the library starts goroutines: a panic inside one ends the process
 	return m.Op("oforeachasync", r, "", func() string {
 		var mu sync.Mutex
 		var log []string
@@ -1183,6 +1187,7 @@ func (m *Machine) OForEachAsync(r string) string {
 	})
 }
 func (m *Machine) OMapAsync(r string, fn *Fn) string {
+	m.w.Flush() // the library starts goroutines: a panic inside one ends the process
 	var tok string
 	m.Op("omapasync", r, fn.Token(), func() string {
 		tok = m.reg(m.O(r).MapAsync(func(k string, v any) any { return fn.Apply(k, v) }))
